@@ -487,6 +487,9 @@ def cosim(inst, lean, cov, rng, cycles, runs=1, watch_every=8):
     n = inst.netlist
     root = n.snapshot()
     out = []
+    if inst.k_del is not None and inst.k_del > 8:
+        # a watchdog run costs about K + slack steps: keep its share of the run bounded for long pipelines
+        watch_every = max(watch_every, 2 * inst.k_del + 4)
     for run in range(runs):
         t_run = time.time()
         n.restore(root)
